@@ -356,6 +356,13 @@ func (cs *ContractSet) parseFile(path string) error {
 				return err
 			}
 			cur.Asserts = append(cur.Asserts, c)
+		case "use":
+			// use lemma(args): at every return, assume the (separately proved) lemma instantiated at args
+			c, err := mk("use")
+			if err != nil {
+				return err
+			}
+			cur.Asserts = append(cur.Asserts, c)
 		case "assigns":
 			c := &Clause{Kind: "assigns", Src: rest, Props: append([]string(nil), props...), Line: where}
 			for _, part := range splitTop(rest, ',') {
